@@ -1293,8 +1293,8 @@ func c09Pinned(c *Ctx) []c09Plan {
 		c09Plan{WantRefuse: true, Job: c09Job{Skel: "srepeat", Src: "s=\"abcdefgh\"*(1<<40); len(s)", MaxDepth: 100, DeadlineMs: 100, MemLimit: M64, Via: "one"}},
 		c09Plan{WantRefuse: true, Job: c09Job{Skel: "range", Src: "a=0:(1<<40); len(a)", MaxDepth: 100, DeadlineMs: 100, MemLimit: M64, Via: "string"}},
 		c09Plan{Job: c09Job{Skel: "aconcat", Src: "a=[1]; for true {vtick(); a=a+a}", MaxDepth: 100, DeadlineMs: 1000, MemLimit: M64, Via: "one"}},
-		c09Plan{Job: c09Job{Skel: "aconcat", Src: "k=[]; for true {vtick(); k = k + [[0]*500000]}", MaxDepth: 100, DeadlineMs: 3000, MemLimit: 256 << 20, Via: "one", HardCap: 2 << 30}},
-		c09Plan{Job: c09Job{Skel: "aconcat", Src: "m={}; n=0; for true {vtick(); m[n] = [0]*300000; n++}", MaxDepth: 100, DeadlineMs: 3000, MemLimit: 256 << 20, Via: "string", HardCap: 2 << 30}},
+		c09Plan{Job: c09Job{Skel: "aconcat", Src: "k=[]; for true {vtick(); k = k + [[0]*500000]}", MaxDepth: 100, DeadlineMs: 8000, MemLimit: 256 << 20, Via: "one", HardCap: 3 << 30}},
+		c09Plan{Job: c09Job{Skel: "aconcat", Src: "m={}; n=0; for true {vtick(); m[n] = [0]*300000; n++}", MaxDepth: 100, DeadlineMs: 8000, MemLimit: 256 << 20, Via: "string", HardCap: 3 << 30}},
 		c09Plan{WantMaxDepth: true, Job: c09Job{Skel: "recurse", Src: "func f(n){vtick(); for i = 0:2 {f(n+i+1)}}; f(0)", MaxDepth: 100, DeadlineMs: 2000, MemLimit: M64, Via: "one"}},
 		c09Plan{WantMaxDepth: true, Job: c09Job{Skel: "recurse", Src: "func f(n){vtick(); for i = 2 {for j = 2 {f(n+1)}}}; f(0)", MaxDepth: 10, DeadlineMs: 2000, MemLimit: M64, Via: "string"}},
 	)
